@@ -12,7 +12,8 @@ from vf.checks import c08
 
 PID = 'C20'
 
-INPUTS = ['okE', 'okH', 'okA', 'okHTML', 'failR', 'failC', 'failP']
+INPUTS = ['okE', 'okH', 'okA', 'okHTML', 'okDef', 'failR', 'failC', 'failP', 'failX']
+PRIORS = [None, 'okOdd', 'failX']     # what the same interpreter was asked before (in-process entry points only)
 OUTARGS = ['none', 'rel', 'subdir', 'abs', 'dircomponent']
 STARTS = ['A', 'B/sub']
 
@@ -80,13 +81,24 @@ def cli_case(arg):
 
 def inproc_case(arg):
     """child: the in-process entry points (client, direct main(), the client as embedded by the Monte-Carlo work_package)."""
-    kind, entry, start = arg
+    kind, entry, start = arg[:3]
+    prior = arg[3] if len(arg) > 3 else None
     tmp = tempfile.gettempdir()
     cwd = os.path.join(tmp, 'ip', start)
     os.makedirs(cwd, exist_ok=True)
     os.chdir(cwd)
-    inp = str(sim.write_input(lines_for(kind), name='input.txt'))
     out = {'rc': 0, 'report': None}
+    if prior:
+        # the long-lived interpreter an embedding application (or the Monte-Carlo parent its workers are forked from) really is:
+        # it has already served another request
+        from geophires_x_client import GeophiresXClient, GeophiresInputParameters
+        try:
+            GeophiresXClient(enable_caching=False).get_geophires_result(GeophiresInputParameters(from_file_path=str(sim.write_input(lines_for(prior), name='prior.txt'))))
+            out['prior'] = 'ok'
+        except BaseException as e:  # noqa
+            out['prior'] = type(e).__name__
+        os.chdir(cwd)
+    inp = str(sim.write_input(lines_for(kind), name='input.txt'))
     try:
         if entry == 'client':
             from geophires_x_client import GeophiresXClient, GeophiresInputParameters
@@ -132,7 +144,7 @@ def inproc_case(arg):
 def task(payload):
     """one case of the product; the report is compared with the report the client gives for the same input (common reference)."""
     res = check.new_result()
-    kind, entry, start, outarg = payload['kind'], payload['entry'], payload['start'], payload.get('outarg')
+    kind, entry, start, outarg, prior = payload['kind'], payload['entry'], payload['start'], payload.get('outarg'), payload.get('prior')
     failing = kind.startswith('fail')
     ref = None
     if not failing:
@@ -143,7 +155,7 @@ def task(payload):
             return res
         ref = tagr[1]['report']
     if entry != 'cli':
-        tag = runner.fork_exec(inproc_case, (kind, entry, start), timeout=900)
+        tag = runner.fork_exec(inproc_case, (kind, entry, start, prior), timeout=900)
         res['execs'] += 1
         res['steps'] += 1
         if tag[0] != 'ok':
@@ -151,7 +163,9 @@ def task(payload):
             return res
         o = tag[1]
         res['accepted' if o['rc'] == 0 else 'not_accepted'] += 1
-        ctx = f'[{kind} via {entry} from {start}]'
+        ctx = f'[{kind} via {entry} from {start}' + (f', after {prior} in the same interpreter]' if prior else ']')
+        if prior and (o.get('prior') == 'ok') != (not prior.startswith('fail')):
+            res['infra'].append(f'{ctx} prior request outcome unexpected: {o.get("prior")}')
         if failing and o['rc'] == 0:
             check.fail(res, f'failing_input_succeeds/{entry}', f'{ctx} a failing input produced a result')
         if not failing:
@@ -193,10 +207,10 @@ def task(payload):
                 check.fail(res, 'cli/relative_output_parameter_misplaced', f'{ctx} relative "HTML Output File" did not land in the starting directory; files: {o["created"]}')
         if o['stray_in_src']:
             check.fail(res, 'cli/output_in_source_directory', f'{ctx} files appeared in the source directory: {o["stray_in_src"]}')
-    d = check.digest([kind, entry, outarg, start])
+    d = check.digest([kind, entry, outarg, start, prior])
     res['states'].append(d)
     res['nontrivial'].append(d)
-    res['sample'] = {'input': kind, 'entry_point': entry, 'output_argument': outarg, 'starting_dir': start}
+    res['sample'] = {'input': kind, 'entry_point': entry, 'output_argument': outarg, 'starting_dir': start, 'asked_before_in_same_interpreter': prior}
     return res
 
 
@@ -207,16 +221,19 @@ def plan(tier, seed):
             for outarg in OUTARGS:
                 P.append({'kind': k, 'entry': 'cli', 'start': start, 'outarg': outarg})
             for entry in ('client', 'main', 'mc'):
-                P.append({'kind': k, 'entry': entry, 'start': start})
+                for prior in PRIORS:
+                    P.append({'kind': k, 'entry': entry, 'start': start, 'prior': prior})
     return P
 
 
 def run(tier, seed, budget=None):
     return e1.run_generic(
         sys.modules[__name__], PID, tier, seed, budget,
-        rule=('finite complete product: 7 inputs (3 succeeding incl. add-ons, one with a relative HTML output parameter, 3 failing while reading / '
-              'calculating / printing) x {python -m geophires_x as a real subprocess x 5 output arguments (none, relative, sub-directory, absolute, a name '
-              'equal to a directory component), GeophiresXClient, direct main(), the client as embedded by the Monte-Carlo work_package} x 2 starting '
-              'directories = 112 executions; reports compared across all entry points, file placement and exit status on the CLI'),
+        rule=('finite complete product: 9 inputs (5 succeeding incl. add-ons, one with a relative HTML output parameter, one relying on defaults; 4 failing '
+              'while reading / calculating / printing / through a bare sys.exit()) x {python -m geophires_x as a real subprocess x 5 output arguments (none, '
+              'relative, sub-directory, absolute, a name equal to a directory component); GeophiresXClient, direct main(), the client as embedded by the '
+              'Monte-Carlo work_package, each x {fresh interpreter, interpreter that already served a many-non-defaults request, interpreter that already '
+              'served an aborting request}} x 2 starting directories = 252 executions; reports compared across all entry points, file placement and '
+              'exit status on the CLI'),
         assumptions=['the direct main() entry point is given absolute paths (as the client does)',
                      'quick and thorough tiers are the same complete product'])
